@@ -127,14 +127,16 @@ Example C16_example_bom_outside_literal :      (* a stray 0xEF hits the default 
   scan_token_at 4 [239; 187; 191] 0 = Diag bad_byte_msg.
 Proof. vm_compute. reflexivity. Qed.
 
-(** the byte-order-mark test as the code has it today (isStringAt ranges over runes): U+FF71
-    (EF BD B1) inside a literal is replaced by the escape of U+FEFF. Not a C16 matter (the scan
-    still ends with a token); recorded because the model follows the code. With
-    [bom_at := bom_at_bytewise] the value would be the three bytes themselves. *)
-Example C16_example_bom_test_first_byte_only :
-  scan_token_at 6 [34; 239; 189; 177; 34] 0 = Tok STRING 0 5 (PStr (b "\ufeff"))
-  /\ bom_at_bytewise [34; 239; 189; 177; 34] 1 = false.
-Proof. split; vm_compute; reflexivity. Qed.
+(** the defect of the intermediate commit 0061363 (isStringAt ranged over runes), repaired by
+    2ecf680: the rune-wise test took any three bytes starting with EF for a byte order mark *)
+Theorem C16_bom_test_runewise_old_refuted :
+  exists buf j, bom_at_runewise_old buf j = true /\ is_string_at buf j bom = false.
+Proof. exact bom_test_runewise_old_refuted. Qed.
+Print Assumptions C16_bom_test_runewise_old_refuted.
+
+Example C16_example_ef_character_kept :        (* U+FF71 (EF BD B1) in a literal stays as it is *)
+  scan_token_at 6 [34; 239; 189; 177; 34] 0 = Tok STRING 0 5 (PStr [239; 189; 177]).
+Proof. vm_compute. reflexivity. Qed.
 
 Example C16_example_sinterp_token :            (* begins after the dollar sign *)
   scan_token_at 7 (b "$""a{x}""") 0 = Tok SINTERP 1 6 (PStr (b "a{x}")).
